@@ -84,7 +84,13 @@ SHEET_NAMES = ["S1", "Sheet 2", "Dätä", "a&b", "x<y", "表", "Q", "long sheet 
 COL_NAMES = ["a", "b", "Name", "Größe", "col 3", "x.y", "列", "h1", "Total", "n/a", "1", "A1", "a;b", "#1", "😀x"]
 SPECIAL_COLS = ["P&L", "Q1 <2020>", 'say "hi"', "a>b", "&amp;", "it's", "&<>\"'", "line1\nline2", "tab\there",
                 "&#38;", "a&b;c", "<", "&", "x\ry", "&lt;tag&gt;"]
-SPECIAL_TABLE_NAMES = ["P&L%d", "A<B%d", 'q"%d', "it's%d", "x>y%d", "&%d;", "T\n%d"]
+# column names that exercise the ST_Xstring layer (ECMA-376 22.9.2.19): line breaks typed with
+# Alt+Enter, underscores, text that looks like an escape, an escape naming a surrogate
+XS_COLS = ["a\nb", "line1\nline2\nline3", "x\ry", "cr\r\nlf", "tab\there", "a_b", "_", "__", "_x", "_x000a_", "_x0041_",
+           "a_x005F_b", "_xD800_", "_x41_", "_X000A_", "_x000g_", "100_x_200", "é_x00e9_", "_x_x0041__", "列_x5217_",
+           "_x000a", "x000a_", "__x000a__", "\u00e9\n", "😀_"]
+SPECIAL_TABLE_NAMES = ["P&L%d", "A<B%d", 'q"%d', "it's%d", "x>y%d", "&%d;", "T\n%d",
+                       "_x0041_%d", "T_x000a_%d", "_x005F_%d"]      # a display name is reported as written (notes/C17.md)
 BAD_SPELLINGS = ["&bogus;", "&amp", "a&b", "&#xZZ;", "&#0;", "&#xD800;", "&#1114112;", "&#;", "&#x;", "&;", "&#-1;",
                  "&#+65;", "&#X41;", "&AMP;", "&#4294967296;", "&#x110000;", "& amp;", "&&amp;", "&amp;&", "&#65"]
 EDGE_COLS = [0, 1, 25, 26, 27, 51, 52, 701, 702, 703, 16382, 16383]
@@ -234,6 +240,64 @@ def spell(rng, text, profile="structured"):
     return "p" + "+".join(pieces)
 
 
+_XS_RE = __import__("re").compile(r"_x([0-9A-Fa-f]{4})_")
+
+
+def xs_decode(text):
+    """the text an ST_Xstring denotes (ECMA-376 22.9.2.19), written independently of Merge.xs_decode:
+    non-overlapping _xHHHH_ from the left, a surrogate code unit stays as written (the pattern is
+    then tried again from the next character)"""
+    out, i = [], 0
+    while i < len(text):
+        m = _XS_RE.match(text, i)
+        if m:
+            cp = int(m.group(1), 16)
+            if not 0xD800 <= cp <= 0xDFFF:
+                out.append(chr(cp))
+                i = m.end()
+                continue
+        out.append(text[i])
+        i += 1
+    return "".join(out)
+
+
+def xs_escape(rng, text):
+    """one way of writing `text` as an ST_Xstring, the way Excel / openpyxl do: control characters
+    (line breaks above all) as _x000a_ with upper-, lower- or mixed-case digits — or left to the XML
+    layer (a character reference) —, an underscore as _x005F_ always / only where an escape would
+    otherwise be read, now and then another character (non-ASCII too) as its escape.  The result is
+    checked with xs_decode; escaping every underscore is the fallback (always right)."""
+    def esc(cp):
+        h = "%04x" % cp
+        k = rng.random()
+        if k < 0.4:
+            h = h.upper()
+        elif k < 0.6:
+            h = "".join(ch.upper() if rng.random() < 0.5 else ch for ch in h)
+        return "_x%s_" % h
+
+    def attempt(all_underscores):
+        out = []
+        for i, ch in enumerate(text):
+            cp = ord(ch)
+            if ch == "_":
+                need = all_underscores or _XS_RE.match(text, i) is not None
+                out.append(esc(cp) if need or rng.random() < 0.15 else ch)
+            elif cp < 32:
+                out.append(esc(cp) if rng.random() < 0.7 else ch)
+            elif cp < 0x10000 and not 0xD800 <= cp <= 0xDFFF and rng.random() < (0.1 if cp >= 128 else 0.03):
+                out.append(esc(cp))
+            else:
+                out.append(ch)
+        return "".join(out)
+
+    w = attempt(rng.random() < 0.3)
+    if xs_decode(w) != text:
+        w = attempt(True)
+    assert xs_decode(w) == text, (text, w)
+    return w
+
+
 def gen_region(rng, cluster, profile):
     box = draw_box(rng, XLSX_ROWS, XLSX_COLS, cluster, 5, 5)
     single = box[0] == box[2] and box[1] == box[3]
@@ -277,13 +341,14 @@ def gen_table(rng, idx, cluster, profile, used_names):
         name = rng.choice(SPECIAL_TABLE_NAMES) % idx
     if profile == "malformed" and used_names and rng.random() < 0.1:
         name = rng.choice(used_names)              # duplicate table name: the first one wins
-    pool = COL_NAMES + (SPECIAL_COLS * 3 if rng.random() < 0.2 else [])
+    pool = COL_NAMES + (SPECIAL_COLS * 3 if rng.random() < 0.2 else []) + (XS_COLS * 3 if rng.random() < 0.25 else [])
     cols = [rng.choice(pool) + (str(j) if rng.random() < 0.5 else "") for j in range(width)]
     if rng.random() < 0.1:
         cols = cols[:rng.randrange(0, len(cols) + 1)]      # column count differs from the width
     single = ref[0] == ref[2] and ref[1] == ref[3]
     t = {"name": name, "ref": ref, "header": header, "totals": totals, "ins": ins, "cols": cols,
-         "name_sp": spell(rng, name, profile), "cols_sp": [spell(rng, c, profile) for c in cols],
+         # a column name is an ST_Xstring inside the XML attribute: two layers (the table name: one)
+         "name_sp": spell(rng, name, profile), "cols_sp": [spell(rng, xs_escape(rng, c), profile) for c in cols],
          "part": "table%d.xml" % idx, "rid": "rId%d" % idx,
          "target": rng.choice("DDA"), "type": rng.choice("TTS"), "tfirst": rng.random() < 0.3,
          "refstyle": "S" if single and rng.random() < 0.5 else "P", "reflower": rng.random() < 0.1,
@@ -347,7 +412,7 @@ def gen_xlsx(rng, profile="structured"):
         names[-1] = names[0]                       # duplicate sheet name
     toks = ["SC", str(rng.randrange(3))]
     tno = 0
-    tnames, info = [], {"regions": 0, "tables": 0, "sheets": nsheets}
+    tnames, tcols, info = [], {}, {"regions": 0, "tables": 0, "sheets": nsheets}
     used = []
     for i, name in enumerate(names):
         p = "x" if rng.random() < 0.12 else None
@@ -388,6 +453,7 @@ def gen_xlsx(rng, profile="structured"):
                      xs(t["prefix"]) if t["prefix"] else "-", events_wire(t["pre"]),
                      ",".join(t["cols_sp"]) if t["cols_sp"] else "-"]
             tnames.append(t["name"])
+            tcols.setdefault(t["name"], t["cols"])        # the first table of a name is the one found
         for (r, c) in sorted(cells):
             toks += ["CL", str(r), str(c), str(cells[(r, c)])]
         info["regions"] += nreg
@@ -412,6 +478,7 @@ def gen_xlsx(rng, profile="structured"):
     # the order of the calls is shuffled: load_* caches, worksheet_merge_cells re-reads
     rng.shuffle(calls)
     info["tnames"] = tnames
+    info["tcols"] = tcols
     info["names"] = names
     return {"desc": " ".join(toks), "calls": ";".join(calls), "info": info}
 
